@@ -265,16 +265,16 @@ Section ReachPreservation.
              let Hr := fresh "Hr" in let Ht := fresh "Ht" in
              pose proof (reach_read_decimal st st Hs Hs) as (Hr & Ht);
              destruct (read_decimal (get_pos st) st) as [[s1 t] [e|]]; cbn [fst snd] in Hr, Ht;
-             [cbn; split; [right; reflexivity|exact Hr]
+             [cbn; split; [apply TokR_mk; assumption|exact Hr]
              |unfold finish; cbn; split; [exact Ht|apply R_prev, R_read; exact Hr]]
          end.
-    all: try (cbn; split; [right; reflexivity|exact Hs]).
+    all: try (cbn; split; [first [right; reflexivity|apply TokR_mk; assumption]|exact Hs]).
     (* identifiers and keywords *)
-    destruct (is_identifier (cur s)) as [[|]|]; try (cbn; split; [right; reflexivity|exact Hs]).
+    destruct (is_identifier (cur s)) as [[|]|]; try (cbn; split; [first [right; reflexivity|apply TokR_mk; assumption]|exact Hs]).
     pose proof (reach_read_ident_rest (sz s) s [cur s] Hs) as Hr.
     destruct (read_ident_rest (sz s) s [cur s]) as [[s1 ident] [e|]]; cbn [fst] in Hr.
-    + cbn. split; [right; reflexivity|exact Hr].
-    + destruct (negb (is_ascii (peek s1))); [cbn; split; [right; reflexivity|exact Hr]|].
+    + cbn. split; [apply TokR_mk; assumption|exact Hr].
+    + destruct (negb (is_ascii (peek s1))); [cbn; split; [apply TokR_mk; assumption|exact Hr]|].
       apply res_finish; assumption.
   Qed.
 End ReachPreservation.
